@@ -77,7 +77,7 @@ func (rc *c19Recon) fail(format string, a ...interface{}) {
 	}
 }
 
-func b2i(b bool) int64 {
+func c19b2i(b bool) int64 {
 	if b {
 		return 1
 	}
@@ -131,7 +131,7 @@ func (rc *c19Recon) accept(i int) {
 		rc.spillLeft--
 		rc.unloaded[i] = true
 	}
-	rc.emit(2, int64(i), b2i(spill), 1)
+	rc.emit(2, int64(i), c19b2i(spill), 1)
 	rc.queue = append(rc.queue, i)
 }
 
@@ -197,9 +197,9 @@ func (rc *c19Recon) ensureStop(evIdx int) {
 		}
 		rc.emit(7)
 		for _, ch := range rc.queue[1:] {
-			rc.emit(9, b2i(rc.afterFiles[rc.chunks[ch].ID]))
+			rc.emit(9, c19b2i(rc.afterFiles[rc.chunks[ch].ID]))
 		}
-		rc.emit(10, b2i(rc.afterFiles[rc.chunks[last].ID]))
+		rc.emit(10, c19b2i(rc.afterFiles[rc.chunks[last].ID]))
 	}
 	rc.queue = nil
 	rc.emit(23)
@@ -208,7 +208,7 @@ func (rc *c19Recon) ensureStop(evIdx int) {
 // drainWindow: what is left in the closed output channel is saved by the feeder
 func (rc *c19Recon) drainWindow() {
 	for _, w := range rc.window {
-		rc.emit(11, b2i(rc.afterFiles[rc.chunks[w].ID]))
+		rc.emit(11, c19b2i(rc.afterFiles[rc.chunks[w].ID]))
 	}
 	rc.window = nil
 }
@@ -474,7 +474,7 @@ func c19Reconstruct(po *c19PipeObs, params e2eParams, ambQueued int, stopSeq int
 				if rc.stopDone {
 					// after the stop the feeder's saveEverything and the consumer drain the output channel together
 					for len(rc.window) > 0 && rc.window[0] != ch {
-						rc.emit(11, b2i(rc.afterFiles[rc.chunks[rc.window[0]].ID]))
+						rc.emit(11, c19b2i(rc.afterFiles[rc.chunks[rc.window[0]].ID]))
 						rc.window = rc.window[1:]
 					}
 					if len(rc.window) == 0 {
@@ -560,7 +560,7 @@ func c19Reconstruct(po *c19PipeObs, params e2eParams, ambQueued int, stopSeq int
 				break
 			}
 			rc.left = rc.left[1:]
-			rc.emit(22, b2i(e.Saved || rc.afterFiles[e.ID]))
+			rc.emit(22, c19b2i(e.Saved || rc.afterFiles[e.ID]))
 		case cwFinished:
 			rc.toFinal(i)
 			if len(rc.left) > 0 {
